@@ -129,7 +129,7 @@ func buildNode(obj slip.Object, p *slip.Printer) (node Node) {
 	case slip.Funky:
 		node = buildCall(slip.Symbol(to.GetName()), to.GetArgs(), p)
 	case slip.Symbol:
-		node = &Leaf{text: []byte(to)}
+		node = &Leaf{text: to.Readably(nil, p)}
 	case slip.LoadFormer:
 		form := to.LoadForm()
 		if dl, _ := form.(slip.List); 0 < len(dl) {
@@ -212,7 +212,7 @@ func buildCall(sym slip.Symbol, args slip.List, p *slip.Printer) (node Node) {
 			}
 			node = list
 		} else {
-			node = newFun(name, args, p, 1)
+			node = newFun(string(slip.Symbol(name).Readably(nil, p)), args, p, 1)
 		}
 	}
 	return
@@ -235,11 +235,11 @@ func buildDocArgs(docArgs []*slip.DocArg, p *slip.Printer) Node {
 	args := &List{children: make([]Node, len(docArgs))}
 	for i, da := range docArgs {
 		if da.Default == nil {
-			args.children[i] = &Leaf{text: []byte(da.Name)}
+			args.children[i] = &Leaf{text: slip.Symbol(da.Name).Readably(nil, p)}
 		} else {
 			args.children[i] = &List{
 				children: []Node{
-					&Leaf{text: []byte(da.Name)},
+					&Leaf{text: slip.Symbol(da.Name).Readably(nil, p)},
 					buildNode(da.Default, p),
 				}}
 		}
